@@ -8,6 +8,7 @@ import (
 	"github.com/cloudwego/gopkg/bufiox"
 	"github.com/cloudwego/gopkg/protocol/thrift"
 
+	"verif/gen"
 	"verif/mc"
 )
 
@@ -252,6 +253,10 @@ func c01Run(c *mc.Ctx) {
 		if n == 9000 {
 			runs = append(runs, m)
 		}
+	}
+	// different strings of equal length colliding under widely used 32-bit hashes, back to back in one stream
+	for _, pr := range gen.CollisionPairs() {
+		runs = append(runs, []cv{{K: "string", S: []byte(pr[0])}, {K: "string", S: []byte(pr[1])}, {K: "binary", S: []byte(pr[0])}, {K: "binary", S: []byte(pr[1])}, {K: "string", S: []byte(pr[0])}})
 	}
 	for ri, r := range runs {
 		if !c.Mine() {
